@@ -112,6 +112,42 @@ func TestVerifRegistryCover(t *testing.T) {
 				break
 			}
 		}
+		if prefill > 0 && !dead {
+			// churn among the fillers: remove entries in the middle of full rows, register new ones, and
+			// look everything up again (first / last entries of every row in use, the removed and the new ones)
+			rng := vsup.NewRng(vsup.Seed() + uint64(path[len(path)-1]))
+			nextFd := fillerBase + prefill + 100
+			for round := 0; round < 6 && !dead; round++ {
+				victim := fillerBase + rng.Intn(prefill)
+				if round%2 == 0 {
+					victim = fillerBase + 1000 + rng.Intn(60000) // middle of row 0
+				}
+				if c := live[victim]; c != nil {
+					cm.delConn(c)
+					delete(live, victim)
+				}
+				for k := 0; k < 2; k++ {
+					c := &conn{fd: nextFd}
+					nextFd++
+					cm.addConn(c, 0)
+					live[c.fd] = c
+				}
+				probe := []int{victim, nextFd - 1, nextFd - 2, fillerBase, fillerBase + 1, fillerBase + 65535, fillerBase + 65536, fillerBase + 65537,
+					fillerBase + 2*65536 - 1, fillerBase + prefill - 1, fillerBase + prefill - 2, fillerBase + prefill - 3}
+				for k := 0; k < 40; k++ {
+					probe = append(probe, fillerBase+rng.Intn(prefill))
+				}
+				if int(cm.loadCount()) != len(live) {
+					viol(len(path)-1, "Churn", "count", fmt.Sprintf("loadCount()=%d with %d live connections (prefill %d, round %d)", cm.loadCount(), len(live), prefill, round))
+				}
+				for _, fd := range probe {
+					if got := cm.getConn(fd); got != live[fd] {
+						viol(len(path)-1, "Churn", "lookup", fmt.Sprintf("after removing fd %d and adding two (prefill %d, round %d): getConn(%d) = %v, want %v", victim, prefill, round, fd, describe(got), describe(live[fd])))
+						break
+					}
+				}
+			}
+		}
 		last := g.Edges[path[len(path)-1]]
 		if last.Action != "Norm" {
 			rep.Eval(fmt.Sprintf("%d|%s", last.From, g.EdgeLabel(path[len(path)-1])))
